@@ -411,3 +411,56 @@ Definition run_fault_effect (l : list N) : list N :=
       [match fault_effect_of a with FxError => 0 | FxTolerated => 1 | FxSwallowed => 2 end]
   | [] => [9]
   end.
+
+(* ------------------------------------------------------------------ *)
+(* C06 / C18: a projected supervisor trace judged by the per-file        *)
+(* automaton of ConcOutcome.v                                            *)
+(* [nops; (kind len bs)*nops; (tag h b)*]  kind 0 = inline, 1 = copy     *)
+(* (jobs = the blocks of a dense file of `len` bytes, Blocks.nblocks);   *)
+(* events oldest first: tag 0 open, 1 block b written, 2 finalised,      *)
+(* 3 inline done                                                         *)
+(* ------------------------------------------------------------------ *)
+From XcpModel Require Import ConcBlock ConcOutcome.
+
+Fixpoint decode_hops (n : nat) (l : list N) : list bop * list N :=
+  match n, l with
+  | S k, kind :: len :: bs :: r =>
+      let '(ops, rest) := decode_hops k r in
+      ((if kind =? 0 then OInline else OCopy (seq 0 (N.to_nat (nblocks len bs)))) :: ops, rest)
+  | _, _ => ([], l)
+  end.
+
+Fixpoint decode_hevents (fuel : nat) (l : list N) : list bev :=
+  match fuel, l with
+  | S f, tag :: h :: b :: r =>
+      (if tag =? 0 then EOpen (N.to_nat h) else if tag =? 1 then EWrite (N.to_nat h) (N.to_nat b)
+       else if tag =? 2 then EFinal (N.to_nat h) else EInline (N.to_nat h)) :: decode_hevents f r
+  | _, _ => []
+  end.
+
+Definition phase_code (p : phase) : N :=
+  match p with PNone => 0 | POpen _ => 1 | PFinal _ => 2 | PInline => 3 | PBad => 4 end.
+
+Definition run_history (l : list N) : list N :=
+  match l with
+  | nops :: r =>
+      let '(ops, evl) := decode_hops (N.to_nat nops) r in
+      let ev := rev (decode_hevents (length evl) evl) in     (* newest first, as b_ev *)
+      b2n (history_ok ops ev) :: map (fun h => phase_code (phase_of h ev)) (seq 0 (length ops))
+  | [] => [9]
+  end.
+
+(* C20: the number of handles open in the parblock model when no pool worker
+   ever completes a job (the supervisor holds them): walker first, then the
+   dispatcher and the pool's take steps until nothing moves.
+   [W; Q; nfiles; blocks_per_file] -> [open handles; queued jobs; running jobs] *)
+Definition run_open_peak (l : list N) : list N :=
+  match l with
+  | w :: q :: n :: bpf :: _ =>
+      let W := N.to_nat w in let Q := N.to_nat q in let n' := N.to_nat n in
+      let ops := repeat (OCopy (seq 0 (N.to_nat bpf))) n' in
+      let sched := repeat LWalk (S n') ++ flat_map (fun _ => [LDisp; LTake]) (seq 0 (4 * (n' + Q + W + 2) * (1 + N.to_nat bpf))) in
+      let s := run_sched W Q (init ops) sched in
+      [N.of_nat (length (b_open s)); N.of_nat (length (b_pq s)); N.of_nat (length (b_run s))]
+  | _ => [9]
+  end.
